@@ -667,6 +667,23 @@ def selftest(job, seed=0):
     except TypeError:
         raised_sym = True
     job.validate("int array /= raises TypeError", float(raised_sym), float(raised_real))
+    for trial in range(3):
+        n = r.randint(3, 6)
+        ys = [r.uniform(-5, 5) for _ in range(n)]
+        xs = sorted(r.uniform(0, 100) for _ in range(n))
+        if trial == 1:
+            xs.reverse()            # searchsorted on a descending array: numpy bisects it as given
+        qs = [xs[0], xs[-1], xs[1], r.uniform(-5, 105), r.uniform(0, 100)]
+        Y = [Q(repr(v)) for v in ys]
+        X = [Q(repr(v)) for v in xs]
+        got = run(lambda: npx.argsort(SymArray(Y)))
+        job.validate("np.argsort", float([int(j) for j in got.d] == np.argsort(np.array(ys), kind="stable").tolist()), 1.0, inputs={"y": ys})
+        for side in ("left", "right"):
+            got = run(lambda: npx.searchsorted(SymArray(X), SymArray([Q(repr(q)) for q in qs]), side=side))
+            job.validate(f"np.searchsorted(side={side})", float([int(j) for j in got.d] == np.searchsorted(np.array(xs), np.array(qs), side=side).tolist()), 1.0,
+                         inputs={"x": xs, "q": qs})
+        got = run(lambda: npx.atleast_1d(Q(repr(ys[0]))).squeeze())
+        job.validate("np.atleast_1d(scalar).squeeze()", float(got), float(np.atleast_1d(ys[0]).squeeze()))
     _selftest_pandas_and_ints(job, r, run, npx)
 
 
